@@ -214,8 +214,18 @@ def run_models(rep, models, depth, dedup_depth_plain=None, max_deviations=None, 
         n = determinism_selftest(models[0])
         rep.cov["determinism_selftest"] = f"history of model {models[0].name} executed twice: identical key, verdicts and {n} log records"
     tot = {"states": 0, "transitions": 0, "max_depth": 0, "plain_states": 0, "plain_transitions": 0}
-    for model in models:
-        st = histbfs.search(model, depth, max_deviations=max_deviations, dedup=True, time_cap=time_cap)
+    import time as _t
+    t_start = _t.time()
+    for mi, model in enumerate(models):
+        # time_cap is a budget for the whole call: each model gets an equal share of what is left (a level that has been
+        # started is always finished, so the budget is soft); caps that bite are recorded in the evidence
+        cap_total = time_cap
+        if cap_total:
+            left = max(5.0, cap_total - (_t.time() - t_start))
+            time_cap_model = left / (len(models) - mi)
+        else:
+            time_cap_model = None
+        st = histbfs.search(model, depth, max_deviations=max_deviations, dedup=True, time_cap=time_cap_model)
         tot["states"] += st["states"]
         tot["transitions"] += st["transitions"]
         tot["max_depth"] = max(tot["max_depth"], st["max_depth"])
@@ -226,7 +236,7 @@ def run_models(rep, models, depth, dedup_depth_plain=None, max_deviations=None, 
         if st["caps_hit"]:
             rep.notes.append(f"{model.name}: {st['caps_hit']}")
         if dedup_depth_plain:
-            sp = histbfs.search(model, dedup_depth_plain, max_deviations=max_deviations, dedup=False, time_cap=time_cap)
+            sp = histbfs.search(model, dedup_depth_plain, max_deviations=max_deviations, dedup=False, time_cap=time_cap_model)
             tot["plain_states"] += sp["states"]
             tot["plain_transitions"] += sp["transitions"]
             keys_d = {k for (k, d), h in st["violations"]}
